@@ -81,6 +81,58 @@ def ge := cmp (fun x y => decide (x ≥ y))
 /-- equality of two byte strings (`*program_id == token::id()`) -/
 def eqBytes (a b : Bytes) : Res Bool := .ok (a == b)
 
+/-! ### functions returning `Result<usize, ProgramError>` (or a tuple of `usize`s) -/
+
+def u64max : Nat := 2 ^ 64 - 1
+
+/-- `if c { a } else { b }` / `if c { return a; } …b` in a function returning a value of type `α` -/
+def ifN {α} (c : Res Bool) (a b : Unit → Res α) : Res α :=
+  match c with
+  | .ok true => a ()
+  | .ok false => b ()
+  | .err e => .err e
+  | .panic => .panic
+
+/-- `let x = e; rest` / `let x = f()?; rest` -/
+def bindNN {α} (e : Res Nat) (rest : Nat → Res α) : Res α :=
+  match e with
+  | .ok x => rest x
+  | .err err => .err err
+  | .panic => .panic
+
+/-- `a.wrapping_rem(b)` on `usize`: panics when `b == 0` -/
+def wrappingRem (a b : Res Nat) : Res Nat :=
+  bindNN a (fun x => bindNN b (fun y => if y = 0 then .panic else .ok (x % y)))
+/-- `a.wrapping_sub(b)` on `usize` -/
+def wrappingSub (a b : Res Nat) : Res Nat :=
+  bindNN a (fun x => bindNN b (fun y => .ok ((x + 2 ^ 64 - y) % 2 ^ 64)))
+/-- `a.saturating_add(b)` on `usize` -/
+def saturatingAdd (a b : Res Nat) : Res Nat :=
+  bindNN a (fun x => bindNN b (fun y => .ok (min (x + y) u64max)))
+/-- `a.checked_mul(b)`, `a.checked_add(b)` : `Option<usize>` -/
+def checkedMul (a b : Res Nat) : Res (Option Nat) :=
+  bindNN a (fun x => bindNN b (fun y => .ok (if x * y > u64max then none else some (x * y))))
+def checkedAdd (a b : Res Nat) : Res (Option Nat) :=
+  bindNN a (fun x => bindNN b (fun y => .ok (if x + y > u64max then none else some (x + y))))
+/-- `opt.and_then(|x| f(x))` -/
+def andThen (o : Res (Option Nat)) (f : Nat → Res (Option Nat)) : Res (Option Nat) :=
+  match o with
+  | .ok (some x) => f x
+  | .ok none => .ok none
+  | .err e => .err e
+  | .panic => .panic
+/-- `opt.ok_or_else(|| err)` as the function's result -/
+def okOrElse (o : Res (Option Nat)) (e : Err) : Res Nat :=
+  match o with
+  | .ok (some x) => .ok x
+  | .ok none => .err e
+  | .err e' => .err e'
+  | .panic => .panic
+/-- `Ok(Struct { a..b, c..d })`: the bounds, in field order -/
+def okList : List (Res Nat) → Res (List Nat)
+  | [] => .ok []
+  | x :: xs => bindNN x (fun v => match okList xs with | .ok vs => .ok (v :: vs) | .err e => .err e | .panic => .panic)
+
 /-- one arm of a `match`: taken if its pattern/guard holds, otherwise the later arms are tried -/
 def armStep (r : Res Bool) (rest : Unit → Res Nat) : Res Nat :=
   match r with
@@ -105,6 +157,9 @@ def firstArm : List (Unit → Res Bool) → Res Nat
 @[simp] theorem ifB_ok (c : Bool) (a b : Unit → Res Bool) : ifB (.ok c) a b = if c then a () else b () := by
   cases c <;> rfl
 @[simp] theorem bindN_ok (x : Nat) (rest : Nat → Res Bool) : bindN (.ok x) rest = rest x := rfl
+@[simp] theorem ifN_ok {α} (c : Bool) (a b : Unit → Res α) : ifN (.ok c) a b = if c then a () else b () := by
+  cases c <;> rfl
+@[simp] theorem bindNN_ok {α} (x : Nat) (rest : Nat → Res α) : bindNN (.ok x) rest = rest x := rfl
 @[simp] theorem cmp_ok (f : Nat → Nat → Bool) (x y : Nat) : cmp f (.ok x) (.ok y) = .ok (f x y) := rfl
 @[simp] theorem cmp_panic_r (f : Nat → Nat → Bool) (x : Nat) : cmp f (.ok x) .panic = .panic := rfl
 @[simp] theorem cmp_panic_l (f : Nat → Nat → Bool) (b : Res Nat) : cmp f .panic b = .panic := by cases b <;> rfl
